@@ -165,6 +165,22 @@ fn eval_npy_lib(base: &NpyBase, d: Damage) -> Option<Viol> {
             ("file_hex", J::s(hex(&bytes))),
         ])
     };
+    // an extended file whose reader fails exactly where the undamaged file would have ended (alone,
+    // and behind a chunk boundary there): damaged and faulty, certainly not a spectrum
+    if let Damage::Extend(..) = d {
+        let end = base.bytes.len();
+        let shared = std::sync::Arc::new(bytes.clone());
+        for sched in [crate::seam::Schedule::whole().with_fault(end), crate::seam::Schedule::cuts(&[end]).with_fault(end), crate::seam::Schedule::periodic(7).with_fault(end)] {
+            let (reader, _log) = crate::seam::ChunkedReader::new(shared.clone(), sched.clone());
+            if let Ok(Ok((s, v))) = catch(move || Array::read_npy(reader).map(|a| (a.shape().to_vec(), a.as_slice().to_vec()))) {
+                return Some((
+                    format!("C16|lib|damaged-npy-accepted-behind-a-read-fault|{}", damage_class(base, d)),
+                    format!("{} with {d:?}, read through a reader that fails at offset {end} ({}), was read as shape {s:?} values {:?}", base.name, sched.describe(), &v[..v.len().min(6)]),
+                    J::obj([("kind", J::s("c16-npy")), ("base", J::s(base.name.clone())), ("damage", J::s(format!("{d:?}"))), ("file_hex", J::s(hex(&bytes))), ("fault_at", J::u(end))]),
+                ));
+            }
+        }
+    }
     match catch(|| Array::read_npy(&bytes[..]).map(|a| (a.shape().to_vec(), a.as_slice().to_vec()))) {
         Ok(Err(_)) => None,
         Ok(Ok((s, v))) => Some((
@@ -855,6 +871,17 @@ pub fn replay(case: &J) -> Option<Vec<String>> {
     match case.get("kind")?.as_str()? {
         "c16-npy" => {
             let bytes = crate::json::unhex(case.get("file_hex")?.as_str()?)?;
+            if let Some(end) = case.get("fault_at").and_then(|x| x.as_i64()).map(|x| x as usize) {
+                let shared = std::sync::Arc::new(bytes.clone());
+                let mut out = Vec::new();
+                for sched in [crate::seam::Schedule::whole().with_fault(end), crate::seam::Schedule::cuts(&[end]).with_fault(end), crate::seam::Schedule::periodic(7).with_fault(end)] {
+                    let (reader, _log) = crate::seam::ChunkedReader::new(shared.clone(), sched.clone());
+                    if let Ok(Ok(s)) = catch(move || Array::read_npy(reader).map(|a| a.shape().to_vec())) {
+                        out.push(format!("C16|lib|damaged-npy-accepted-behind-a-read-fault :: {} gives shape {s:?}", sched.describe()));
+                    }
+                }
+                return Some(out);
+            }
             let r = catch(|| Array::read_npy(&bytes[..]).map(|a| a.shape().to_vec()));
             match r {
                 Ok(Err(_)) => Some(vec![]),
